@@ -269,3 +269,82 @@ def classify_ops(cfg, ops):
     if any(op.get("last") for op in ops[:-1]):
         cl.add("mid_sequence_last")
     return cl
+
+
+def run_cdc(cfg, stim, backend="fast", max_ticks=None):
+    """two clocks: master in 'user', realistic slave in 'sys'"""
+    dut, sim = get_sim(cfg, backend)
+    sl = stim.get("slave", {})
+    slave = NativeSlave([dut.ctrl], ready_pattern=sl.get("ready"), wlat=sl.get("wlat"), rlat=sl.get("rlat"), qmax=sl.get("qmax", 8))
+    master = NativeMaster(dut.user, stim["ops"], wait_reads=stim.get("wait_reads", False))
+    nreads = sum(1 for op in stim["ops"] if not op["we"])
+    tcount = {"user": 0, "sys": 0}
+    xlog = {"cmd_u": [], "cmd_s": [], "wd_u": [], "wd_s": [], "rd_u": [], "rd_s": []}
+    u, c = dut.user, dut.ctrl
+    has_w = cfg.get("mode", "both") != "read"
+    has_r = cfg.get("mode", "both") != "write"
+    maxfill = [0]
+
+    gtick = [0]
+    ev = {"r_pulse": [], "r_deliv": [], "w_push": [], "w_pulse": [], "c_acc": []}
+
+    def on_rising(cd):
+        t = tcount[cd]
+        tcount[cd] += 1
+        g = sim.get
+        if cd == "sys":
+            if has_r and g(c.rdata.valid):
+                ev["r_pulse"].append((gtick[0], t))
+            if has_w and g(c.wdata.ready):
+                ev["w_pulse"].append((gtick[0], t))
+            if g(c.cmd.valid) and g(c.cmd.ready):
+                ev["c_acc"].append((gtick[0], t, g(c.cmd.we)))
+        else:
+            if has_r and g(u.rdata.valid) and g(u.rdata.ready):
+                ev["r_deliv"].append((gtick[0], t))
+            if has_w and g(u.wdata.valid) and g(u.wdata.ready):
+                ev["w_push"].append((gtick[0], t))
+        if cd == "user":
+            if g(u.cmd.valid) and g(u.cmd.ready):
+                xlog["cmd_u"].append((g(u.cmd.we), g(u.cmd.addr)))
+            if has_w and g(u.wdata.valid) and g(u.wdata.ready):
+                xlog["wd_u"].append((g(u.wdata.data), g(u.wdata.we)))
+            if has_r and g(u.rdata.valid) and g(u.rdata.ready):
+                xlog["rd_u"].append(g(u.rdata.data))
+            if g(u.cmd.valid) and not g(u.cmd.ready):
+                maxfill[0] += 1
+            return master.cycle(sim, t)
+        if cd == "sys":
+            if g(c.cmd.valid) and g(c.cmd.ready):
+                xlog["cmd_s"].append((g(c.cmd.we), g(c.cmd.addr)))
+            if has_w and g(c.wdata.valid) and g(c.wdata.ready):
+                xlog["wd_s"].append((g(c.wdata.data), g(c.wdata.we)))
+            if has_r and g(c.rdata.valid) and g(c.rdata.ready):
+                xlog["rd_s"].append(g(c.rdata.data))
+            return slave.cycle(sim, t)
+        return []
+    lat = max((sl.get("wlat") or [3]) + (sl.get("rlat") or [5])) + sum(sl.get("ready") or [0]) + 8
+    clocks = cfg["clocks"]
+    pu = clocks["user"][0] if isinstance(clocks["user"], (list, tuple)) else clocks["user"]
+    ps = clocks["sys"][0] if isinstance(clocks["sys"], (list, tuple)) else clocks["sys"]
+    cap_user = 300 + len(stim["ops"]) * (30 + (lat + 12) * max(1, -(-ps // pu)) * 2) + sum(op.get("gap", 0) for op in stim["ops"])
+    quiet = 0
+    done = False
+    while tcount["user"] < cap_user:
+        gtick[0] += 1
+        rising = sim.tick(on_rising)
+        if "user" in rising:
+            if master.idle() and slave.idle() and len(master.r_log) >= nreads:
+                quiet += 1
+                if quiet >= 40 + 8 * max(1, -(-ps // pu)):
+                    done = True
+                    break
+            else:
+                quiet = 0
+    r = AdapterRun()
+    r.cfg, r.stim, r.dut, r.master, r.slave, r.cycles, r.completed = cfg, stim, dut, master, slave, tcount["user"], done
+    r.xlog = xlog
+    r.ev = ev
+    r.backpressure_cycles = maxfill[0]
+    r.sys_cycles = tcount["sys"]
+    return r
